@@ -205,7 +205,9 @@ class QFDriver:
             new = h not in self.model
             if new and o.quotient >= self.maxq and len(self.model) >= 0.8 * o.size and not self.case.get("nocap"):
                 return self.step(["remove", op[1], op[2] if len(op) > 2 else 0])  # keep tables <= 2^8 slots
-            full = (not o.auto_expand) and len(self.model) >= o.size
+            # no room: a non-expanding filter that is completely full - or an auto-expanding one whose maximum load factor was set
+            # above 1, so that it never grows before it is completely full (then the add is refused, never misplaced)
+            full = len(self.model) >= o.size and ((not o.auto_expand) or o.max_load_factor > 1.0)
             if kind == "addkey":
                 status, r = self.call(o.add, key, allow=(self.Err,))
             else:
@@ -260,7 +262,7 @@ class QFDriver:
         elif kind == "merge":
             hs = [self.H(t, r) for t, r in op[1]]
             q2 = op[2]
-            if not o.auto_expand:
+            if (not o.auto_expand) or o.max_load_factor > 1.0:  # (a filter that does not grow before it is full: only what fits)
                 room = o.size - len(self.model)
                 keep = []
                 for x in hs:
@@ -379,7 +381,7 @@ def case_strategy(tier, max_ops=60):
         ]
         return {
             "q": q, "auto": draw(st.booleans()), "dense": dense,
-            "mlf": draw(st.sampled_from([None, None, None, 0.5, 0.95, 1.0, 0.25])),
+            "mlf": draw(st.sampled_from([None, None, None, 0.5, 0.95, 1.0, 0.25, 1.5])),
             "hash": draw(st.sampled_from(["default", "default", "sha", "falsy_sha", "edges"])),
             "tops": tops, "lows": lows, "pool": draw(gen.pool_st(2, 6)),
             "ops": [list(o) for o in draw(st.lists(st.one_of(*ops), min_size=4, max_size=max_ops))],
